@@ -390,6 +390,8 @@ type ctxCase struct {
 	Delivered int `json:"delivered"` // context put on the envelope message before unwrapping (a broker hop)
 	Wrapped   int `json:"wrapped"`   // observed on the envelope message
 	Unwrapped int `json:"unwrapped"` // observed on the unwrapped message
+	Copy      int `json:"copy"`      // observed on m.Copy()
+	OrigAfter int `json:"orig_after"`
 }
 
 func (g *gen) ctxCases(n int) []ctxCase {
@@ -400,6 +402,10 @@ func (g *gen) ctxCases(n int) []ctxCase {
 		if ctx := ctxWith(c.In); ctx != nil {
 			m.SetContext(ctx)
 		}
+		cp := m.Copy()
+		c.Copy = ctxID(cp.Context())
+		cp.SetContext(ctxWith(3)) // a context set on the copy must not show on the original
+		c.OrigAfter = ctxID(m.Context())
 		w, err := forwarder.VerifWrapMessageInEnvelope("t", m)
 		if err != nil {
 			panic(err)
